@@ -167,7 +167,7 @@ def inotify_ready(pid, deadline_s=8.0):
 class Wx:
     """One watchexec process under test."""
 
-    def __init__(self, scratch, name, flags, child_opts, extra_env=None, cmd_override=None):
+    def __init__(self, scratch, name, flags, child_opts, extra_env=None, cmd_override=None, stdin_pipe=False):
         self.dir = os.path.join(scratch, name)
         self.proj = os.path.join(self.dir, "proj")
         os.makedirs(self.proj, exist_ok=True)
@@ -190,7 +190,7 @@ class Wx:
         if extra_env:
             env.update(extra_env)
         self.cmd = cmd
-        self.p = subprocess.Popen(cmd, cwd=self.proj, stdin=subprocess.DEVNULL, stdout=subprocess.DEVNULL, stderr=self.err, env=env, start_new_session=True)
+        self.p = subprocess.Popen(cmd, cwd=self.proj, stdin=subprocess.PIPE if stdin_pipe else subprocess.DEVNULL, stdout=subprocess.DEVNULL, stderr=self.err, env=env, start_new_session=True)
         self.changes = []  # (t_before, t_after, n_files)
         self.seq = 0
         self.noise_sig = None  # a signal watchexec is told to discard, sent next to every change (same debounce window)
@@ -230,8 +230,11 @@ class Wx:
     def shutdown(self, sig=signal.SIGTERM, timeout=6.0):
         t0 = mono()
         try:
-            self.p.send_signal(sig)
-        except ProcessLookupError:
+            if sig == "stdin-eof":
+                self.p.stdin.close()  # --stdin-quit: end of input asks for the same shutdown as an interrupt
+            else:
+                self.p.send_signal(sig)
+        except (ProcessLookupError, OSError):
             pass
         try:
             self.p.wait(timeout=timeout)
@@ -380,7 +383,12 @@ def c05_scenario(rep, rng, scratch, idx, force=None):
     elif child_kind in ("long", "medium", "selfexit"):
         child += ["--on-signal", "any:0"]
     name = "c05-%d" % idx
-    wx = Wx(scratch, name, flags, child)
+    # one scenario in five keeps watchexec's standard input open and passes --stdin-quit: closing it is a third way to ask
+    # for the shutdown (besides SIGINT / SIGTERM)
+    stdin_quit = rng.random() < 0.2
+    if stdin_quit:
+        flags = flags + ["--stdin-quit"]
+    wx = Wx(scratch, name, flags, child, stdin_pipe=stdin_quit)
     if noise:
         wx.noise_sig = signal.SIGUSR1
     desc = {"noise": noise, "mode": mode_name, "template": template, "child": child_kind, "stop_timeout_ms": stop_timeout, "debounce_ms": debounce,
@@ -641,12 +649,27 @@ def c08_cli_tail(rep, rng, wx, desc, V):
     elif desc.get("mapped_signal") == "INT":
         sig = signal.SIGTERM
     stop_timeout = desc.get("stop_timeout_ms", 300)
+    signame = sig.name
+    if wx.p.stdin is not None:
+        if rng.random() < 0.7:
+            sig, signame = "stdin-eof", "the end of its standard input (--stdin-quit)"
+            rep.count("cli_shutdowns_through_stdin_eof", 1)
     t0, took = wx.shutdown(sig, timeout=stop_timeout / 1000.0 + 6.0)
     rep.count("cli_shutdowns", 1)
-    if took is None:
-        V.append(("C08/cli/never-exits", "watchexec did not exit within %.1f s of %s" % (stop_timeout / 1000.0 + 6.0, sig.name)))
+    if took is None and sig != "stdin-eof" and wx.p.stdin is not None:
+        # still running with its standard input open (--stdin-quit): does it leave as soon as that input ends? Then the
+        # shutdown itself was done and only the reader blocked on stdin kept the process alive
+        try:
+            wx.p.stdin.close()
+            wx.p.wait(timeout=3.0)
+            V.append(("C08/cli/never-exits/until-stdin-ends", "with --stdin-quit and its standard input still open, watchexec did not exit within %.1f s of %s; it exited once that input was closed" % (stop_timeout / 1000.0 + 6.0, signame)))
+            took = (mono() - t0) / 1e9
+        except (subprocess.TimeoutExpired, OSError):
+            V.append(("C08/cli/never-exits", "watchexec did not exit within %.1f s of %s" % (stop_timeout / 1000.0 + 6.0, signame)))
+    elif took is None:
+        V.append(("C08/cli/never-exits", "watchexec did not exit within %.1f s of %s" % (stop_timeout / 1000.0 + 6.0, signame)))
     elif took > 2 * stop_timeout / 1000.0 + 1.5:
-        V.append(("C08/cli/late-exit", "watchexec exited %.2f s after %s (stop-timeout %d ms)" % (took, sig.name, stop_timeout)))
+        V.append(("C08/cli/late-exit", "watchexec exited %.2f s after %s (stop-timeout %d ms)" % (took, signame, stop_timeout)))
     time.sleep(0.1)
     lines = wx.lines()
     for r in running:
@@ -656,7 +679,7 @@ def c08_cli_tail(rep, rng, wx, desc, V):
         if desc.get("mode", "").startswith("signal"):
             want = {"SIGUSR2": 12, "SIGINT": 2, "SIGHUP": 1}.get(desc.get("stop_signal"), 15)
         if took is not None and want not in sigs and stop_timeout >= 100:
-            V.append(("C08/cli/no-stop-signal", "the running command did not receive signal %d when watchexec was told to %s (saw %s)" % (want, sig.name, sigs)))
+            V.append(("C08/cli/no-stop-signal", "the running command did not receive signal %d when watchexec was told to stop by %s (saw %s)" % (want, signame, sigs)))
     t1 = time.time()
     surv = []
     while time.time() - t1 < 2.0:
